@@ -1,12 +1,15 @@
 (* C05/C02: the LZMA decode window of src/lzma.c (_GD_LzmaReady, _GD_LzmaClear,
    _GD_LzmaRead, _GD_LzmaSeek in read mode) over an abstract decoded stream of
-   L bytes.  liblzma is not modelled: each run of the coding loop is answered
-   by an oracle `orc s nreq = (a, e)`: `a` more bytes were appended to the
-   output buffer and `e` says whether the decoder or the input reported the
-   end; all that is assumed of it (ok_resp) is what the loop of _GD_LzmaReady
-   guarantees on exit: it never writes past the buffer or past the end of the
-   stream, it signals the end only at the end, and when it returns without the
-   end it has either filled the buffer or made nreq bytes ready.
+   L bytes (L = what can be decoded: for a truncated file, the decodable part).
+   liblzma is not modelled: each run of the coding loop is answered by an
+   oracle `orc s nreq = (a, r)`: `a` more bytes were appended to the output
+   buffer and `r` says how the loop ended: RespOk (the loop condition failed),
+   RespEnd (the decoder reported LZMA_STREAM_END or the input ran out) or
+   RespErr (lzma_code or fread failed).  All that is assumed of it (ok_resp)
+   is what the loop of _GD_LzmaReady guarantees on exit: it never writes past
+   the buffer or past the end of the stream, it signals the end only at the
+   end, and when it returns normally it has either filled the buffer or made
+   nreq bytes ready.
    The buffer always holds the bytes [tout - nout, tout) of the stream (output
    is appended in order; _GD_LzmaClear keeps the tail), so its contents are
    determined by the counters, and a read is described by the list of stream
@@ -18,9 +21,15 @@ Local Open Scope Z_scope.
 Record lzst := { tout : Z; nout : Z; off : Z; eof : bool }.
 (* xz.total_out, NOUT, lzd->offset, LZEOF *)
 
+Inductive lzresp := RespOk | RespEnd | RespErr.
+Inductive lzstatus := LzDone | LzErr | LzFuel.
+
+Definition resp_end (r : lzresp) : bool := match r with RespEnd => true | _ => false end.
+Definition resp_err (r : lzresp) : bool := match r with RespErr => true | _ => false end.
+
 Section Lzma.
   Variables DOUT LB size L : Z.     (* GD_LZMA_DATA_OUT, GD_LZMA_LOOKBACK, GD_SIZE(type), stream length *)
-  Variable orc : lzst -> Z -> Z * bool.
+  Variable orc : lzst -> Z -> Z * lzresp.
 
   Definition base (s : lzst) := tout s - nout s.
   Definition ready (s : lzst) := nout s - off s.
@@ -30,16 +39,17 @@ Section Lzma.
   Definition fresh : lzst := {| tout := 0; nout := 0; off := 0; eof := false |}.
 
   (* what the coding loop may answer *)
-  Definition ok_resp (s : lzst) (nreq : Z) (r : Z * bool) : Prop :=
+  Definition ok_resp (s : lzst) (nreq : Z) (r : Z * lzresp) : Prop :=
     0 <= fst r /\ fst r <= avail s /\ tout s + fst r <= L /\
-    (snd r = true -> tout s + fst r = L) /\
-    (snd r = false -> fst r = avail s \/ nreq <= ready s + fst r).
+    (snd r = RespEnd -> tout s + fst r = L) /\
+    (snd r = RespOk -> fst r = avail s \/ nreq <= ready s + fst r).
 
-  (* _GD_LzmaReady *)
-  Definition ready_call (s : lzst) (nreq : Z) : lzst :=
-    if eof s || (size <=? ready s) then s
+  (* _GD_LzmaReady: new state and whether it returned -1 *)
+  Definition ready_call (s : lzst) (nreq : Z) : lzst * bool :=
+    if eof s || (size <=? ready s) then (s, false)
     else let r := orc s nreq in
-         {| tout := tout s + fst r; nout := nout s + fst r; off := off s; eof := snd r |}.
+         ({| tout := tout s + fst r; nout := nout s + fst r; off := off s; eof := resp_end (snd r) |},
+          resp_err (snd r)).
 
   (* _GD_LzmaClear(lzd, part) *)
   Definition clear (s : lzst) (part : Z) : lzst :=
@@ -48,23 +58,25 @@ Section Lzma.
 
   (* _GD_LzmaRead: out = list of (stream start, length) copied, in order *)
   Fixpoint lzma_read_loop (fuel : nat) (s : lzst) (rem nread nmemb : Z) (out : list (Z * Z))
-    : lzst * Z * list (Z * Z) :=
+    : lzst * Z * list (Z * Z) * lzstatus :=
     match fuel with
-    | O => (s, nread, out)
+    | O => (s, nread, out, LzFuel)
     | S f =>
-        if rem <=? 0 then (s, nread, out)
+        if rem <=? 0 then (s, nread, out, LzDone)
         else
-          let s1 := ready_call s rem in
+          let '(s1, failed) := ready_call s rem in
+          if failed then (s1, -1, out, LzErr)
+          else
           let br := ready s1 in
           if br <? size then
             let s2 := clear s1 br in
-            if eof s2 then (s2, nread, out) else lzma_read_loop f s2 rem nread nmemb out
+            if eof s2 then (s2, nread, out, LzDone) else lzma_read_loop f s2 rem nread nmemb out
           else
             let sr := Z.min (br / size) (nmemb - nread) in
             let bytes := sr * size in
             let s2 := {| tout := tout s1; nout := nout s1; off := off s1 + bytes; eof := eof s1 |} in
             let out' := out ++ [(cursor s1, bytes)] in
-            if eof s2 then (s2, nread + sr, out')
+            if eof s2 then (s2, nread + sr, out', LzDone)
             else lzma_read_loop f s2 (rem - bytes) (nread + sr) nmemb out'
     end.
 
@@ -72,29 +84,33 @@ Section Lzma.
     lzma_read_loop fuel s (nmemb * size) 0 nmemb [].
 
   (* _GD_LzmaSeek, read mode, to byte position bc = count * size *)
-  Fixpoint lzma_seek_loop (fuel : nat) (s : lzst) (bc : Z) : lzst :=
+  Fixpoint lzma_seek_loop (fuel : nat) (s : lzst) (bc : Z) : lzst * lzstatus :=
     match fuel with
-    | O => s
+    | O => (s, LzFuel)
     | S f =>
         if tout s <? bc then
           let s1 := clear s 0 in
-          let s2 := ready_call s1 (avail s1) in
-          if eof s2 then s2 else lzma_seek_loop f s2 bc
-        else s
+          let '(s2, failed) := ready_call s1 (avail s1) in
+          if failed then (s2, LzErr)
+          else if eof s2 then (s2, LzDone) else lzma_seek_loop f s2 bc
+        else (s, LzDone)
     end.
 
-  Definition lzma_seek (fuel : nat) (s : lzst) (bc : Z) : lzst :=
+  Definition lzma_seek (fuel : nat) (s : lzst) (bc : Z) : lzst * lzstatus :=
     if (bc <? tout s) && (base s <=? bc) then
-      {| tout := tout s; nout := nout s; off := bc - base s; eof := eof s |}
+      ({| tout := tout s; nout := nout s; off := bc - base s; eof := eof s |}, LzDone)
     else
       let s0 := if bc <? base s then {| tout := 0; nout := 0; off := 0; eof := false |} else s in
-      let s1 := lzma_seek_loop fuel s0 bc in
-      if tout s1 <? bc then {| tout := tout s1; nout := nout s1; off := nout s1; eof := eof s1 |}
-      else {| tout := tout s1; nout := nout s1; off := bc - base s1; eof := eof s1 |}.
+      match lzma_seek_loop fuel s0 bc with
+      | (s1, LzDone) =>
+          if tout s1 <? bc then ({| tout := tout s1; nout := nout s1; off := nout s1; eof := eof s1 |}, LzDone)
+          else ({| tout := tout s1; nout := nout s1; off := bc - base s1; eof := eof s1 |}, LzDone)
+      | (s1, st) => (s1, st)
+      end.
 End Lzma.
 
 (* an executable oracle: decode as much as fits (the result of a read does not
    depend on the oracle, see LzmaWindowProofs) *)
-Definition full_orc (DOUT L : Z) (s : lzst) (nreq : Z) : Z * bool :=
+Definition full_orc (DOUT L : Z) (s : lzst) (nreq : Z) : Z * lzresp :=
   let a := Z.min (DOUT - nout s) (L - tout s) in
-  (a, (tout s + a =? L)).
+  (a, if tout s + a =? L then RespEnd else RespOk).
